@@ -1,4 +1,4 @@
-SOURCE_COMMITS = ["d2e4e29 fix: wake all waiting accepts when a connection is released (unguarded repair, C18)", "1519567 fix: make validatePositive reject non-positive integers, check subnet key lengths (unguarded repair, C20)", "0f1a30e fix: serve zero TTL from the simple cache when no time is left (unguarded repair, C04)", "e93dce2 fix: unpack only the received bytes of a DoQ message (unguarded repair, C06)", "333808d fix: unpack only the received bytes of a plain upstream reply (unguarded repair, C06)", "2a834ae fix: do not proxy linked-IP paths that contain dot segments (unguarded repair, C19)"]
+SOURCE_COMMITS = ["d2e4e29 fix: wake all waiting accepts when a connection is released (unguarded repair, C18)", "1519567 fix: make validatePositive reject non-positive integers, check subnet key lengths (unguarded repair, C20)", "0f1a30e fix: serve zero TTL from the simple cache when no time is left (unguarded repair, C04)", "e93dce2 fix: unpack only the received bytes of a DoQ message (unguarded repair, C06)", "333808d fix: unpack only the received bytes of a plain upstream reply (unguarded repair, C06)", "2a834ae fix: do not proxy linked-IP paths that contain dot segments (unguarded repair, C19)", "f25de9e fix: recheck staleness before removing profile database index entries (unguarded repair, C14)"]
 
 claim("C09",
       "Bounded symbolic execution of the real RequestCounter/ring buffer against a sliding-window-log reference: for every interval and every non-decreasing timestamp sequence within the bound the SMT solver shows Add's verdict equals the reference. Bounded (events, limit), full-width values.",
@@ -54,3 +54,8 @@ claim("C15",
       "Symbolic execution of the real mainmw Wrap closure (filterRequest/filterResponse/setFilteredResponse/recordQueryInfo) with recorder stubs over device-result kinds, symbolic QueryLogEnabled/IPLogEnabled flags, all request/response verdict kinds and symbolic client address / ASN / start time / qtype: billing iff attributed to a profile, log entry iff query logging enabled, client address iff IP logging enabled, entry fields are this request's; querylog.resultData against the table of doc/querylog.md for all verdict pairs; FileSystem.Write over 1..3 writes with a recycled buffer (one complete record per entry, file closed, elapsed saturation).",
       "Trusted: symgo (sync.Pool LIFO model), recorder stubs; in the symbolic build os.OpenFile, File.Write/Close and json.Encoder.Encode are stubs (native replay uses a real temp file and JSON). Outside the claim: atomicity of concurrent O_APPEND writes (kernel), JSON encoding, that anonymous/dropped requests never reach this middleware (C10/H10b).",
       "DESIGN.md 3 C15")
+
+claim("C14",
+      "Bounded exploration of the real profiledb.Default (setProfiles/setDevices, ProfileByLinkedIP/DedicatedIP/HumanID, profileByDeviceID and the remove* clean-up goroutines run as scheduler-controlled threads): over all sequences of partial/full synchronisations that move a key between two devices, lookups and clean-up runs in every order, each lookup must return the device that owns the key in the ghost backend state. The file-cache struct conversions toProtobuf/toInternal are executed on a profile and a device whose booleans, addresses, ASNs, subnets, RPS and hash bytes are symbolic and every field is compared after the round trip.",
+      "Trusted: symgo cooperative scheduler (clean-up goroutines run only at harness-chosen points; natively reproduced with GOMAXPROCS(1)), sync.RWMutex model, z3. Bounds: 1 profile, 2 devices, 2 keys of one kind, 5 (quick) / 6 (thorough) steps. Outside the claim: device-ID index under profile moves (not yet encoded), protobuf wire marshalling, renameio atomicity / kill points, pause schedules (time-zone loading), gRPC backend conversion.",
+      "DESIGN.md 3 C14")
